@@ -15,6 +15,14 @@ pub trait HasConv { fn has(&self) -> bool { true } }
 impl<T: ::core::convert::TryFrom<E>, E> HasConv for Wrap<T, E> {}
 pub trait HasNoConv { fn has(&self) -> bool { false } }
 impl<T, E> HasNoConv for &Wrap<T, E> {}
+// "if the conversion exists at all, what does it do": Some(result) through the impl when there is one, None otherwise
+pub struct Via<T, E>(pub ::core::marker::PhantomData<(T, E)>);
+pub trait DoConv<T, E> { fn conv(&self, e: E) -> Option<Result<T, E>>; }
+impl<T: ::core::convert::TryFrom<E, Error = derive_more::TryIntoError<E>>, E> DoConv<T, E> for Via<T, E> {
+    fn conv(&self, e: E) -> Option<Result<T, E>> { Some(T::try_from(e).map_err(|x| x.input)) }
+}
+pub trait NoConv<T, E> { fn conv(&self, _: E) -> Option<Result<T, E>> { None } }
+impl<T, E> NoConv<T, E> for &Via<T, E> {}
 '''
 
 NAMES_DEFAULT = ["Foo", "FooBar", "Ab", "FooBarBaz"]
@@ -78,6 +86,8 @@ def gen_case(cid, kinds, cfg, generic):
             attrs += ["#[unwrap(ref)]", "#[try_unwrap(ref)]"]
         if vi in vrefs and do_tryinto:
             attrs += ["#[try_into(owned, ref)]"]   # accepted at variant level like the selections of Unwrap: it must then have that effect
+        if vi in cfg.get("variant_owned", set()) and do_tryinto:
+            attrs += ["#[try_into(owned)]"]
         if vi in cfg.get("enable_attr", set()):
             attrs += ["#[is_variant]"] + (["#[try_into(owned)]"] if do_tryinto else []) + (["#[unwrap(owned)]", "#[try_unwrap(owned)]"] if do_unwrap else [])
         fs = []
@@ -244,6 +254,26 @@ def gen_case(cid, kinds, cfg, generic):
             binds = ["p%d" % f for f in range(len(kept))]
             L.append('{ let %s = <%s as ::core::convert::TryFrom<&%s>>::try_from(&v%d).ok().unwrap(); r.eq("variant-level try_into(ref): TryFrom<&E> yields the fields themselves", vec![%s], vec![%s]); }' % (
                 tup(binds), rt, EE, vi, ", ".join("adr(%s)" % b for b in binds), ", ".join("fa%d[%d]" % (vi, fi) for fi in kept)))
+    # whichever owned conversions exist (the documentation does not pin the defaults for every mix of enum-level and variant-level
+    # selections): a `TryFrom<E> for X` that exists must succeed for EVERY non-ignored variant whose field types are X, with the fields
+    # in order, and hand the original back for every other variant
+    # (only where un-attributed variants certainly take part: an enabling attribute on SOME variants without an enum-level one makes the
+    # derive opt-in, and the documentation does not say so for TryInto)
+    if do_tryinto and not generic and (sel or not (vrefs or cfg.get("enable_attr"))):
+        all_t = []
+        for vi in range(n):
+            if vi not in ign and tuple(conv_tys(vi)) not in all_t:
+                all_t.append(tuple(conv_tys(vi)))
+        for t in all_t:
+            tt = tup(list(t)) if t else "()"
+            for i in range(n):
+                named, tys = KINDS[kinds[i]]
+                kept = [fi for fi in range(len(tys)) if fi not in fign.get(i, ())]
+                ok = (i not in ign) and tuple(conv_tys(i)) == t
+                vals = ["%s(%d)" % (cty(tys[fi]), 100 + 10 * i + fi) for fi in kept]
+                want = ("Ok(%s)" % (tup(vals) if vals else "()")) if ok else ("Err(v%d.clone())" % i)
+                L.append('{ let got = (&Via::<%s, %s>(::core::marker::PhantomData)).conv(v%d.clone()); r.check("if TryFrom<E> for %s exists it converts %s correctly", got.is_none() || got == Some(%s)); }' % (
+                    tt, EE, i, tt, NAMES[i], want))
     # ignored variants contribute no conversion
     for vi in (ign if do_tryinto else ()):
         t = tuple(conv_tys(vi))
@@ -290,6 +320,11 @@ def run(chk, tier):
                         add(kinds, {"field_ignore": {vi: {fi}}, "refs": True})
                 if KINDS[k][0] is False:
                     add(kinds, {"variant_refs": {vi}})
+    # enum-level selection without `owned`, one variant asking for `owned` itself (first, last, middle): the variants sharing its types
+    for kinds in (["t1a", "t1a"], ["t1a", "t1a", "t1a"], ["t2", "t2", "unit"], ["t1a", "t1b", "t1a"], ["n1", "t1a", "t1a"]):
+        for pos in range(len(kinds)):
+            for sel in (("ref",), ("ref_mut",), ("ref", "ref_mut")):
+                add(kinds, {"sel": sel, "variant_owned": {pos}})
     for kinds in (["unit"], ["t1a"], ["unit", "t1a"], ["t2", "unit", "n1"], ["t1a", "t1b", "unit"]):
         add(kinds, dict(RAW))
         add(kinds, dict(RAW, refs=True))
